@@ -112,7 +112,7 @@ func (w *c10World) do(client int, kind string, deadline time.Duration) c10Op {
 		op.Err = o.Err.Error()
 		// a timeout error obtained after the caller's own deadline has passed is the caller's, not the future's outcome
 		// (EVAL may notice the deadline before or inside the deref builtin, with different messages)
-		if kind == "deref" && (strings.Contains(op.Err, "timeout while dereferencing future") || (ctx.Err() != nil && strings.Contains(op.Err, "timeout while"))) {
+		if kind == "deref" && (strings.Contains(op.Err, "timeout while dereferencing future") || (ctx.Err() != nil && hx.IsTimeoutText(op.Err))) {
 			op.TimedOut = true
 		}
 	default:
